@@ -194,7 +194,7 @@ Lemma dec_items_seq : forall {A} (item : list N -> option (A * list N)) n bs,
 Proof.
   intros. unfold dec_items. rewrite iter_N_opt_nat, iter_step_item.
   destruct (dec_seq item (N.to_nat n) bs) as [[vs r]|]; auto.
-  rewrite app_nil_r, rev_involutive. reflexivity.
+  rewrite rev_append_rev, !app_nil_r, rev_involutive. reflexivity.
 Qed.
 
 (** the list loop of [from_json] followed by the count loop of [to_json] *)
@@ -232,43 +232,53 @@ Proof.
   cbn [uleb_groups] in *.
   assert (Hdm : n = 128 * (n / 128) + n mod 128) by (apply N.div_mod; lia).
   assert (Hm : n mod 128 < 128) by (apply N.mod_lt; lia).
-  destruct (N.eqb_spec (n / 128) 0) as [E|E].
+  assert (Hmm : (n mod 128 + 128) mod 128 = n mod 128).
+  { rewrite N.add_mod by lia. rewrite N.mod_same by lia. rewrite N.add_0_r.
+    rewrite N.mod_mod by lia. rewrite N.mod_mod by lia. reflexivity. }
+  assert (Hsm : (n mod 128) mod 128 = n mod 128) by (apply N.mod_mod; lia).
+  remember (n mod 128) as m eqn:Em. remember (n / 128) as q eqn:Eq.
+  destruct (N.eqb_spec q 0) as [E|E].
   - cbn [app uleb_dec length] in *.
     destruct (N.eqb_spec c 0); [lia|].
-    rewrite (N.mod_small (n mod 128)) by lia.
-    destruct (N.ltb_spec (n mod 128) 128); [|lia].
-    f_equal. f_equal. rewrite E in Hdm. rewrite Hdm at 2. lia.
+    rewrite Hsm.
+    destruct (N.ltb_spec m 128); [|lia].
+    f_equal. f_equal. subst q. rewrite Hdm. lia.
   - cbn [app uleb_dec length] in *.
     destruct (N.eqb_spec c 0); [lia|].
-    destruct (N.ltb_spec (n mod 128 + 128) 128); [lia|].
-    replace ((n mod 128 + 128) mod 128) with (n mod 128).
-    2:{ rewrite N.add_mod by lia. rewrite N.mod_same by lia. rewrite N.add_0_r.
-        rewrite N.mod_mod by lia. rewrite N.mod_mod by lia. reflexivity. }
+    destruct (N.ltb_spec (m + 128) 128); [lia|].
+    rewrite Hmm.
     destruct fuel as [|fuel'].
-    { exfalso. change (2 ^ N.of_nat 1) with 2 in Hn. assert (n / 128 = 0) by (apply N.div_small; lia). contradiction. }
+    { exfalso. change (2 ^ N.of_nat 1) with 2 in Hn. assert (n / 128 = 0) by (apply N.div_small; lia). congruence. }
     rewrite IH.
-    + f_equal. f_equal. rewrite N.pow_add_r. change (2 ^ 7) with 128. rewrite Hdm at 3. lia.
-    + apply N.div_lt_upper_bound; [lia|].
-      replace (N.of_nat (S (S fuel'))) with (1 + N.of_nat (S fuel')) in Hn by lia.
+    + f_equal. f_equal. rewrite N.pow_add_r. change (2 ^ 7) with 128. rewrite Hdm. lia.
+    + replace (N.of_nat (S (S fuel'))) with (1 + N.of_nat (S fuel')) in Hn by lia.
       rewrite N.pow_add_r in Hn. change (2 ^ 1) with 2 in Hn. lia.
     + lia.
     + lia.
 Qed.
 
+Lemma pos_size_nat_bound : forall p, Npos p < 2 ^ N.of_nat (Pos.size_nat p).
+Proof.
+  induction p as [p IH|p IH|]; cbn [Pos.size_nat].
+  - replace (N.of_nat (S (Pos.size_nat p))) with (1 + N.of_nat (Pos.size_nat p)) by lia.
+    rewrite N.pow_add_r. change (2 ^ 1) with 2. lia.
+  - replace (N.of_nat (S (Pos.size_nat p))) with (1 + N.of_nat (Pos.size_nat p)) by lia.
+    rewrite N.pow_add_r. change (2 ^ 1) with 2. lia.
+  - reflexivity.
+Qed.
+
 Lemma size_nat_bound : forall n, n < 2 ^ N.of_nat (N.size_nat n).
 Proof.
-  intros. destruct n as [|p]; [reflexivity|].
-  pose proof (N.size_gt (Npos p)) as H. unfold N.size_nat. unfold N.size in H.
-  replace (N.of_nat (Pos.size_nat p)) with (Npos (Pos.size p)); [assumption|].
-  rewrite Pos.size_nat_equiv. lia.
+  intros. destruct n as [|p]; [reflexivity|]. apply pos_size_nat_bound.
 Qed.
 
 Lemma uleb_roundtrip : forall c n bs rest, uleb_enc c n = Some bs ->
   uleb_dec (bs ++ rest) c 0 0 = Some (n, rest).
 Proof.
   unfold uleb_enc. intros c n bs rest H.
-  destruct (N.leb_spec (N.of_nat (length (uleb_groups (S (N.size_nat n)) n))) c); try discriminate.
-  inversion H; subst. rewrite uleb_groups_dec; auto.
+  remember (S (N.size_nat n)) as fuel eqn:Ef.
+  destruct (N.leb_spec (N.of_nat (length (uleb_groups fuel n))) c); try discriminate.
+  injection H as <-. rewrite uleb_groups_dec; auto; subst fuel.
   - f_equal. f_equal. change (2 ^ 0) with 1. lia.
   - pose proof (size_nat_bound n).
     replace (N.of_nat (S (N.size_nat n))) with (1 + N.of_nat (N.size_nat n)) by lia.
@@ -286,43 +296,45 @@ Proof.
   cbn [sleb_groups] in *.
   assert (Hdm : (z = 128 * (z / 128) + z mod 128)%Z) by (apply Z.div_mod; lia).
   assert (Hm : (0 <= z mod 128 < 128)%Z) by (apply Z.mod_pos_bound; lia).
-  set (b := Z.to_N (z mod 128)) in *.
-  assert (Hb : Z.of_N b = (z mod 128)%Z) by (unfold b; rewrite Z2N.id; lia).
+  remember (z mod 128)%Z as m eqn:Em. remember (z / 128)%Z as q eqn:Eq.
+  remember (Z.to_N m) as b eqn:Eb.
+  assert (Hb : Z.of_N b = m) by (subst b; rewrite Z2N.id; lia).
   assert (Hb128 : b < 128) by lia.
+  assert (Hbm : b mod 128 = b) by (apply N.mod_small; lia).
+  assert (Hbm' : (b + 128) mod 128 = b).
+  { rewrite N.add_mod by lia. rewrite N.mod_same by lia. rewrite N.add_0_r.
+    rewrite N.mod_mod by lia. exact Hbm. }
   assert (Hpow : (2 ^ Z.of_N (shift + 7) = 128 * 2 ^ Z.of_N shift)%Z).
   { rewrite N2Z.inj_add. rewrite Z.pow_add_r by lia. change (2 ^ Z.of_N 7)%Z with 128%Z. lia. }
-  assert (Hp0 : (0 < 2 ^ Z.of_N shift)%Z) by (apply Z.pow_pos_nonneg; lia).
-  destruct (((z / 128 =? 0)%Z && (b <? 64)) || ((z / 128 =? -1)%Z && (64 <=? b))) eqn:Efin.
+  remember (2 ^ Z.of_N shift)%Z as P eqn:EP.
+  destruct (((q =? 0)%Z && (b <? 64)) || ((q =? -1)%Z && (64 <=? b))) eqn:Efin.
   - cbn [app sleb_dec length] in *.
     destruct (N.eqb_spec c 0); [lia|].
-    rewrite (N.mod_small b) by lia.
+    rewrite Hbm.
     destruct (N.ltb_spec b 128); [|lia].
-    f_equal. f_equal.
+    f_equal. f_equal. rewrite <- EP.
     apply orb_true_iff in Efin. destruct Efin as [E|E]; apply andb_true_iff in E; destruct E as [E1 E2].
     + apply Z.eqb_eq in E1. apply N.ltb_lt in E2.
-      destruct (N.leb_spec 64 b); [lia|]. rewrite Hb. rewrite E1 in Hdm. nia.
+      destruct (N.leb_spec 64 b); [lia|]. rewrite Hb. rewrite Hdm, E1. ring.
     + apply Z.eqb_eq in E1. apply N.leb_le in E2.
-      destruct (N.leb_spec 64 b); [|lia]. rewrite Hb, Hpow. rewrite E1 in Hdm. nia.
+      destruct (N.leb_spec 64 b); [|lia]. rewrite Hb, Hpow. rewrite Hdm, E1. ring.
   - cbn [app sleb_dec length] in *.
     destruct (N.eqb_spec c 0); [lia|].
     destruct (N.ltb_spec (b + 128) 128); [lia|].
-    replace ((b + 128) mod 128) with b.
-    2:{ rewrite N.add_mod by lia. rewrite N.mod_same by lia. rewrite N.add_0_r.
-        rewrite N.mod_mod by lia. rewrite N.mod_small by lia. reflexivity. }
+    rewrite Hbm'.
     destruct fuel as [|fuel'].
     { exfalso. change (2 ^ Z.of_nat 1)%Z with 2%Z in Hz.
       apply orb_false_iff in Efin. destruct Efin as [E1 E2].
       assert (z = -2 \/ z = -1 \/ z = 0 \/ z = 1)%Z as Hcases by lia.
+      subst q b m.
       destruct Hcases as [?|[?|[?|?]]]; subst z; vm_compute in E1, E2; discriminate. }
     rewrite IH.
-    + f_equal. f_equal. rewrite Hb, Hpow. rewrite Hdm at 2. nia.
+    + f_equal. f_equal. rewrite Hb, Hpow, <- EP. rewrite Hdm. ring.
     + assert (Hp : (2 ^ Z.of_nat (S (S fuel')) = 2 * 2 ^ Z.of_nat (S fuel'))%Z).
       { replace (Z.of_nat (S (S fuel'))) with (1 + Z.of_nat (S fuel'))%Z by lia.
         rewrite Z.pow_add_r by lia. reflexivity. }
       assert (0 < 2 ^ Z.of_nat (S fuel'))%Z by (apply Z.pow_pos_nonneg; lia).
-      split.
-      * apply Z.div_le_lower_bound; lia.
-      * apply Z.div_lt_upper_bound; lia.
+      remember (2 ^ Z.of_nat (S fuel'))%Z as Q. lia.
     + lia.
     + lia.
 Qed.
@@ -339,8 +351,9 @@ Lemma sleb_roundtrip : forall c z bs rest, sleb_enc c z = Some bs ->
   sleb_dec (bs ++ rest) c 0 0 = Some (z, rest).
 Proof.
   unfold sleb_enc. intros c z bs rest H.
-  destruct (N.leb_spec (N.of_nat (length (sleb_groups (S (N.size_nat (Z.abs_N z))) z))) c); try discriminate.
-  inversion H; subst. rewrite sleb_groups_dec; auto.
+  remember (S (N.size_nat (Z.abs_N z))) as fuel eqn:Ef.
+  destruct (N.leb_spec (N.of_nat (length (sleb_groups fuel z))) c); try discriminate.
+  injection H as <-. rewrite sleb_groups_dec; auto; subst fuel.
   - f_equal. f_equal. change (2 ^ Z.of_N 0)%Z with 1%Z. lia.
   - pose proof (abs_size_bound z).
     replace (Z.of_nat (S (N.size_nat (Z.abs_N z)))) with (1 + Z.of_nat (N.size_nat (Z.abs_N z)))%Z by lia.
